@@ -28,7 +28,8 @@ RULE = (
     "history of 1-10 pending changes that emits no SQL (add Parent/Child/Grandchild/Tag, set scalar, delete, re-parent via many-to-one or via a loaded "
     "collection, tag add/remove, owner change); one probe: ORM select (filter / by-FK / join / count / aggregate), select of ORM-mapped columns, legacy Query, "
     "Session.get of absent/present identity, lazy load of an unloaded collection, refresh of an untouched object, bulk ORM UPDATE, Query.count, and the query-form dimension "
-    "{Session.execute, scalars, scalar} x {ORM entity, Core Table, text()} x {count(*), id list} on the table a pending change is about. "
+    "{Session.execute, scalars, scalar} x {ORM entity, Core Table, text()} x {count(*), id list} and legacy Query x {ORM entity, ORM column, Core table, Core column, "
+    "func over Core column, Core table .count()} on the table a pending change is about. "
     "Non-trivial: the control session (no autoflush, no flush) observes a different probe result or post-probe database than the autoflush session; "
     "distinct = canonical JSON of the case"
 )
@@ -390,14 +391,32 @@ def _run_probe(w: _World, probe, classes):
         kind = form_kind or ["parent", "child", "grandchild", "tag", "owner", "child", "parent", "child"][a % 8]
         cls = fam.classes[kind]
         tbl = cls.__table__
-        how, stk = [("scalar", "core"), ("scalar", "text"), ("execute", "core"), ("scalars", "text"), ("execute", "text"), ("scalars", "core"),
-                    ("scalar", "orm"), ("execute", "orm"), ("scalars", "orm")][c % 9]
-        shape = ["count", "ids"][(c // 9) % 2]
-        if shape == "count":
+        how, stk = [("scalar", "core"), ("query", "core-column"), ("scalar", "text"), ("query", "core-func"), ("execute", "core"), ("query", "core-table"),
+                    ("scalars", "text"), ("query", "core-table-count"), ("execute", "text"), ("scalars", "core"), ("query", "orm-column"),
+                    ("scalar", "orm"), ("query", "orm-entity"), ("execute", "orm"), ("scalars", "orm")][c % 15]
+        shape = ["count", "ids"][(c // 15) % 2]
+        if how == "query":
+            # legacy Query x {ORM entity, ORM column, Core table, Core column, SQL function over a Core column}
+            shape = "query"
+            if stk == "orm-entity":
+                out = [e.id for e in s.query(cls).order_by(cls.id).all()]
+            elif stk == "orm-column":
+                out = [list(r) for r in s.query(cls.id).order_by(cls.id).all()]
+            elif stk == "core-table":
+                out = [list(r)[:1] for r in s.query(tbl).order_by(tbl.c.id).all()]
+            elif stk == "core-table-count":
+                out = s.query(tbl).filter(tbl.c.id > 0).count()
+            elif stk == "core-column":
+                out = [list(r) for r in s.query(tbl.c.id).order_by(tbl.c.id).all()]
+            else:
+                out = [list(r) for r in s.query(func.max(tbl.c.id), func.count(tbl.c.id)).all()]
+        elif shape == "count":
             stmt = {"orm": select(func.count()).select_from(cls), "core": select(func.count()).select_from(tbl), "text": text(f"SELECT count(*) FROM {kind}")}[stk]
         else:
             stmt = {"orm": select(cls.id).order_by(cls.id), "core": select(tbl.c.id).order_by(tbl.c.id), "text": text(f"SELECT id FROM {kind} ORDER BY id")}[stk]
-        if how == "execute":
+        if how == "query":
+            pass
+        elif how == "execute":
             out = [list(r) for r in s.execute(stmt)]
         elif how == "scalars":
             out = list(s.scalars(stmt))
@@ -584,7 +603,7 @@ def _cases(draw):
             ops.append([k, draw(st.integers(0, 5)), draw(st.integers(0, 5))])
     case["ops"] = ops
     pk = draw(st.sampled_from(["target"] * 14 + ["form"] * 6 + ["qcount", "sel_p", "sel_c_fk", "sel_join", "sel_all", "sel_all", "count", "count", "agg", "cols", "cols", "m2m", "query", "get", "get", "get", "lazy", "lazy", "lazy", "lazy", "lazy", "lazy", "lazy", "lazy", "refresh", "bulk_upd", "bulk_upd"]))
-    case["probe"] = [pk, draw(st.integers(0, 11)), draw(_v), draw(st.sampled_from(list(range(18))))]
+    case["probe"] = [pk, draw(st.integers(0, 11)), draw(_v), draw(st.sampled_from(list(range(30))))]
     return case
 
 
